@@ -40,14 +40,26 @@ def retry_loop_rules(ctx, repo, fi, rule, sender_recv, var="retry_count"):
     g = cfg_of(fi)
     key = fi.qual
     heads = [h for h in loop_heads(g) if h.kind == "test" and var in names_in(h.ast)]
+
+    def counted_for(hd):
+        # `for _ in range(retry_count)`: bounded by construction, the budget cannot be refilled inside
+        it = hd.ast.iter if hd.kind == "for" else None
+        return isinstance(it, ast.Call) and isinstance(it.func, ast.Name) and it.func.id == "range" and \
+            [ast.unparse(a) for a in it.args] in ([var], ["0", var])
+    fheads = [h for h in loop_heads(g) if counted_for(h)]
+    heads = heads + fheads
     ctx.ob(rule, f"{key}::retry-loop", len(heads) == 1, f"{fi.qual}: expected exactly one loop governed by {var}, found {len(heads)}", fi.loc)
     if len(heads) != 1:
         return None
     h = heads[0]
-    ctx.ob(rule, f"{key}::loop-test", head_test_bounds(h, var), f"{fi.qual}: retry loop test `{h.text()}` is not `{var} > 0`", loc(fi, h.ast))
-    ok, why = variant(g, h, var)
-    ctx.ob(rule, f"{key}::bounded", ok, f"{fi.qual}: retry loop is not bounded by {var}: {why}", loc(fi, h.ast),
-           sample={"rule": rule, "function": fi.qual, "loop": h.text(), "variant": var, "bounded": ok})
+    if h in fheads:
+        ctx.ob(rule, f"{key}::loop-test", True, "")
+        ctx.ob(rule, f"{key}::bounded", True, "", sample={"rule": rule, "function": fi.qual, "loop": h.text(), "variant": f"range({var})", "bounded": True})
+    else:
+        ctx.ob(rule, f"{key}::loop-test", head_test_bounds(h, var), f"{fi.qual}: retry loop test `{h.text()}` is not `{var} > 0`", loc(fi, h.ast))
+        ok, why = variant(g, h, var)
+        ctx.ob(rule, f"{key}::bounded", ok, f"{fi.qual}: retry loop is not bounded by {var}: {why}", loc(fi, h.ast),
+               sample={"rule": rule, "function": fi.qual, "loop": h.text(), "variant": var, "bounded": ok})
     # the bound is a parameter that is not rebound before the loop
     params = [a.arg for a in fi.node.args.args]
     ctx.ob(rule, f"{key}::bound-is-parameter", var in params, f"{fi.qual}: {var} is not a parameter", fi.loc)
@@ -186,7 +198,8 @@ def check(ctx):
     for qual in (f"{PROTO}.get", "GeckoAsyncStructure.get"):
         fi = repo.func(qual)
         withs = [n for n in walk_no_nested(fi.node) if isinstance(n, ast.AsyncWith) and any(is_lock_expr(it.context_expr, n) for it in n.items)]
-        loops = [n for n in walk_no_nested(fi.node) if isinstance(n, ast.While) and "retry_count" in ast.unparse(n.test)]
+        loops = [n for n in walk_no_nested(fi.node) if (isinstance(n, ast.While) and "retry_count" in ast.unparse(n.test))
+                 or (isinstance(n, ast.For) and "retry_count" in ast.unparse(n.iter))]
         ok = len(withs) == 1 and len(loops) == 1 and any(loops[0] is x for x in ast.walk(withs[0]))
         ctx.ob("R2", f"{qual}::lock-spans-all-attempts", ok,
                f"{qual}: the protocol lock does not enclose the whole retry loop (it is taken per attempt or not at all): between two attempts of one request other callers are served, "
